@@ -45,7 +45,7 @@ def faulty_spec(fault):
         for d in spec['PQ']:
             d['p0'] *= 100
             d['q0'] *= 100
-        solvable = False           # 25 pu over a 0.08 pu reactance: far beyond V^2 / 2x
+        solvable = None
     elif fault == 'island_noslack':
         solvable = False
     elif fault == 'zero_impedance':
@@ -113,9 +113,7 @@ class PFlowFaults(Part):
         tag = f'{case["fault"]}'
         log = []
         try:
-            # PQ.p2z/q2z off: outside the voltage band the stock load turns into an impedance (documented), which makes
-            # overload cases solvable; the catalogue wants the plain constant-power problem the reference describes
-            opts = [f'PFlow.method={case["method"]}', 'PQ.pq2z=0']
+            opts = [f'PFlow.method={case["method"]}']
             if case['fault'] == 'max_iter1':
                 opts.append('PFlow.max_iter=1')
             ss = andes.System(no_output=True, default_config=True, config_option=opts)
@@ -170,8 +168,18 @@ class PFlowFaults(Part):
                 bad(f'success_without_residual_test:{tag}', f'{tag} ({case["method"]}): returned True but max |g| = {resid:.3e}')
             if finite and case['fault'] not in ('nan_load', 'nan_line_x', 'zero_impedance'):
                 # the reported solution in the independent network model: power balance at every load bus
-                net = to_net(spec)
                 V = {b: ss.Bus.v.v[k] * np.exp(1j * ss.Bus.a.v[k]) for k, b in enumerate(ss.Bus.idx.v)}
+                # documented load model: outside [vmin, vmax] the load is the impedance that draws p0, q0 at the band edge
+                rspec = dict(spec)
+                rspec['PQ'] = []
+                for d in spec['PQ']:
+                    d = dict(d)
+                    vm = abs(V[d['bus']])
+                    edge = d['vmin'] if vm < d['vmin'] else d['vmax'] if vm > d['vmax'] else None
+                    if edge:
+                        d['p0'], d['q0'] = d['p0'] * (vm / edge) ** 2, d['q0'] * (vm / edge) ** 2
+                    rspec['PQ'].append(d)
+                net = to_net(rspec)
                 gen = {d['bus']: d['p0'] + 0j for d in spec['PV'] if d.get('u', 1)}
                 try:
                     mis, allow = net.mismatch(V, gen)
